@@ -53,7 +53,9 @@ def validate_model(rep, G, E, s_base, acc, n_each=12, label="peg", relayout=Fals
             except (ValueError, AssertionError):
                 real = "accept"      # grammar accepted; a parse action's validation rejected (not modelled)
             n += 1
-            if relayout and real == "accept":
+            if relayout and (real == "accept" or real != side):
+                # every accepted stream, and every stream on which model and real parser disagree, is re-laid-out
+                # on the real parser: a difference between layouts is a reproduced C12 violation whatever the model says
                 if layout_differential(rep, G, E.tokens(m)):
                     s_base.pop()
                     return n
@@ -101,7 +103,7 @@ def comment_anomalies(rep, G, pid):
 
 
 # ------------------------------------------------------------------ concrete re-layout of solver-produced streams
-def layouts_of(G, toks):
+def layouts_of(G, toks, default_merged=False):
     """Render one token list under several layouts inside the stated re-layout domain."""
     V = G.V
     n = len(toks)
@@ -111,6 +113,8 @@ def layouts_of(G, toks):
             return False
         return True
     def in_include(k):
+        if toks[k - 1].startswith("#include") and len(toks[k - 1]) > 8:
+            return False                     # corpus form: the whole directive is one token
         return (k >= 2 and toks[k - 2] == "#include") or (k >= 3 and toks[k - 3] == "#include")
     schemes = {"space": " ", "newline": "\n", "block": " /*c*/ ", "line": " // c\n", "glued": "", "gluedblock": "/*c*/", "doc": " /** { ; \" class **/ "}
     out = {}
@@ -136,7 +140,7 @@ def layouts_of(G, toks):
     return out
 
 
-def layout_differential(rep, G, toks, pid="C12"):
+def layout_differential(rep, G, toks, pid="C12", default_merged=False):
     """Real parser on every layout of one token list; a difference is a reproduced C12 violation."""
     import gtwrap.interface_parser as parser
     from harness.project import project
@@ -156,3 +160,128 @@ def layout_differential(rep, G, toks, pid="C12"):
                 dict(kind="c12-layout", a=la["space"], b=la[name], property=pid))
             return True
     return False
+
+
+# ------------------------------------------------------------------ the repository's own test inputs as validation corpus
+def ref_tokenize(text):
+    """reference lexer for the fixture files: comments stripped; identifiers / numbers / string literals /
+    longest-match punctuation; `#include`, `unsigned char`, `enum class`, `enum struct` as single tokens"""
+    import re
+    text = re.sub(r"/\*.*?\*/", " ", text, flags=re.S)
+    text = re.sub(r"//[^\n]*", " ", text)
+    pat = re.compile(r'''\s*(?:(\#include\s*<[^>]*>)|(unsigned\s+char|enum\s+class|enum\s+struct)|("(?:[^"\\\\]|\\\\.)*"|'(?:[^'\\\\]|\\\\.)*')|([A-Za-z_]\w*)|(\d[\w.]*)|(::|<<=|>>=|<<|>>|==|!=|<=|>=|\+=|-=|\*=|/=|%=|\^=|&=|\|=|\(\)|\[\]|.))''', re.S)
+    toks = []
+    for m in pat.finditer(text):
+        t = next(g for g in m.groups() if g is not None)
+        if t.strip():
+            toks.append(re.sub(r"\s+", " ", t.strip()))
+    # tokens.py defines the optional `std::` in front of `pair` as ONE literal (stated re-layout domain)
+    out, i = [], 0
+    while i < len(toks):
+        if toks[i] == "std" and toks[i + 1:i + 3] == ["::", "pair"]:
+            out.append("std::")
+            i += 2
+            continue
+        out.append(toks[i])
+        i += 1
+    return out
+
+
+def corpus_declarations(repo):
+    """statement-level declarations of tests/fixtures/*.i, each as (tokens, context) with context 'top' or 'member'"""
+    import glob
+    import os
+    out = []
+    for f in sorted(glob.glob(os.path.join(repo, "tests", "fixtures", "*.i"))):
+        toks = ref_tokenize(open(f).read())
+        # split into statements at ; (depth 0 inside the current braces), descending into namespace / class bodies
+        def walk(ts, ctx):
+            i, cur, depth = 0, [], 0
+            while i < len(ts):
+                t = ts[i]
+                cur.append(t)
+                if t in ("{",):
+                    # find the matching brace
+                    d, j = 1, i + 1
+                    while j < len(ts) and d:
+                        d += ts[j] == "{"
+                        d -= ts[j] == "}"
+                        j += 1
+                    head = cur[:-1]
+                    body = ts[i + 1:j - 1]
+                    if "namespace" in head:
+                        walk(body, "top")
+                        cur = []
+                        i = j
+                        continue
+                    if "class" in head and "=" not in head[-2:]:
+                        walk(body, "member")
+                        # the class itself with an emptied body
+                        end = j
+                        if end < len(ts) and ts[end] == ";":
+                            end += 1
+                        out.append((head + ["{", "}", ";"], ctx))
+                        cur = []
+                        i = end
+                        continue
+                    cur += ts[i + 1:j]
+                    i = j
+                    continue
+                if t == ";" or (t.startswith("#include")):
+                    out.append((cur, ctx))
+                    cur = []
+                i += 1
+        walk(toks, "top")
+    return out
+
+
+def corpus_layout_check(rep, G, repo, limit=400):
+    """Every fixture declaration, re-laid-out seven ways on the real parser (inside the stated re-layout domain)."""
+    import gtwrap.interface_parser as parser
+    n = 0
+    seen = set()
+    for toks, ctx in corpus_declarations(repo):
+        if "=" in toks and any(t in toks for t in ("(", "{")) and toks.count("=") > 0:
+            pass
+        key = (tuple(toks), ctx)
+        if key in seen or not toks:
+            continue
+        seen.add(key)
+        # verbatim regions are outside the re-layout domain: keep a default expression as ONE token
+        merged, i = [], 0
+        hdr_end = -1
+        if toks[0] == "template" and len(toks) > 1 and toks[1] == "<":
+            d, j = 0, 1
+            while j < len(toks):
+                d += toks[j] == "<"
+                d -= toks[j] == ">"
+                if d == 0:
+                    break
+                j += 1
+            hdr_end = j                       # `= {...}` inside the template header is structure, not a verbatim default
+        while i < len(toks):
+            if toks[i] == "=" and i > hdr_end and i + 1 < len(toks):
+                j, depth = i + 1, 0
+                while j < len(toks) and not (depth == 0 and toks[j] in (",", ";", ")")):
+                    depth += toks[j] in ("(", "{", "[", "<")
+                    depth -= toks[j] in (")", "}", "]", ">")
+                    j += 1
+                merged += ["=", " ".join(toks[i + 1:j])]
+                i = j
+                continue
+            merged.append(toks[i])
+            i += 1
+        toks2 = (["class", "Ctx", "{"] + merged + ["}", ";"]) if ctx == "member" else merged
+        if ctx == "member" and toks2[3:4] and toks2[3] not in ("template", "static", "enum", "enum class", "__") and len(merged) > 1 and merged[1] == "(":
+            toks2[1] = merged[0]            # a constructor: the class must carry its name
+        try:
+            parser.Module.parseString(" ".join(toks2))
+        except Exception:
+            continue                        # the abstraction did not produce a stand-alone declaration; skip
+        n += 1
+        if layout_differential(rep, G, toks2, default_merged=True):
+            break
+        if n >= limit:
+            break
+    rep.extra["corpus_declarations_relayouted"] = rep.extra.get("corpus_declarations_relayouted", 0) + n
+    return n
